@@ -184,4 +184,27 @@ example : ∃ fuel st0 ret p0 e0 p' e' t st', Prng.initUser .user true [1, 2, 3]
       · show 50 ≤ 50; decide)
   exact ⟨fuel, st0, ret, p0, e0, p', e', t, st', h1, h2, h3, h4, h6⟩
 
+open TJ.Props.C15Gen TJ.Props.C16Gen in
+def geoS : PGeo := { geoP with ud := 0 }
+
+open TJ.Props.C15Gen TJ.Props.C16Gen in
+/-- `TJ.Props.C16Gen.init_system_then_history`: `tinyjambu_prng_init` whose source FAILS (delivery with result 0), then generate 40, reseed (source succeeds), feed, generate 50 -/
+example : ∃ (fuel : Nat) (st0 : St) (g0 : GS) (st' : St), callFun prog fuel idx_tinyjambu_prng_init true [(mkPtr 0 0, .pub), (mkPtr 2 (0 + 0), .pub), (3, .pub)]
+      ⟨memP, [([], 0), (List.replicate 32 5, 32)], []⟩ = .ok .normal #[(0, .pub), (mkPtr 0 0, .pub), (mkPtr 2 (0 + 0), .pub), (3, .pub)] st0 ∧
+    PRun geoS st0 [.gen 40, .reseed, .feed [2, 3], .gen 50] st' ∧ GMI geoS sysCb (g0.runOps [.gen 40, .reseed, .feed [2, 3], .gen 50]) st' := by
+  obtain ⟨fuel, st0, g0, st', h1, _, _, _, h5, h6⟩ := init_system_then_history geoS rfl ⟨memP, [([], 0), (List.replicate 32 5, 32)], []⟩ (Array.replicate 96 (0, .undef))
+    (Array.replicate 64 (0, .undef)) 0 [1, 2, 3] [.gen 40, .reseed, .feed [2, 3], .gen 50] rfl (by simp [geoS, geoP]) (by decide) rfl (by simp [geoS, geoP]) rfl (bytesV_lab _ _ (by decide)) rfl
+    (by
+      intro op hop
+      simp only [List.mem_cons, List.mem_nil_iff, or_false] at hop
+      rcases hop with h | h | h | h <;> subst h
+      · show 40 ≤ 50; decide
+      · trivial
+      · exact ⟨1, ⟨by simp [geoS, geoP], fun k b hk => by
+          match k, hk with
+          | 0, hk => exact ⟨.pub, by simp at hk; subst hk; rfl, by decide⟩
+          | 1, hk => exact ⟨.pub, by simp at hk; subst hk; rfl, by decide⟩⟩⟩
+      · show 50 ≤ 50; decide)
+  exact ⟨fuel, st0, g0, st', h1, h5, h6⟩
+
 end TJ.Props.NonVacuous
